@@ -28,7 +28,7 @@ PROP = {
              "integer inputs plus a sub-unit fraction divided by 10^dp. A case is non-trivial iff the premises hold and at least 5 "
              "sample points inside and 5 outside the union cleared the 3-unit margin and were judged; distinct by hash of "
              "inputs+configuration; builds plain + CLIPPER2_HI_PRECISION (+ portable arithmetic in the thorough tier); "
-             "1 case in 2500 is a long path (1500-9000 points, every third one 9000-30000 points: up to 240000 parallelograms), judged by one inside-sample per parallelogram"),
+             "1 case in 2500 is a long path (1500-9000 points, every third one 9000-14000 points with a 6-8 point pattern: 54000-112000 parallelograms), judged by one inside-sample per parallelogram"),
     "assumptions": ["exact __int128 orientation/winding oracle in harness/common/geom.h is correct",
                     "'general position' is applied to pattern and path only (DESIGN.md C19): no repeated consecutive vertices, "
                     "pattern >= 3 vertices not all collinear, path >= 2 vertices, |coord| <= 2^40; not to the set of parallelograms",
